@@ -9,6 +9,14 @@ From DnsV Require Import Base.Bytes Model.Store Model.LookupV1 Model.LookupV2 Mo
 From DnsV Require Import Spec.Answer Spec.Rows.
 Open Scope N_scope.
 
+(* byte strings arrive as one number: digits base 256 behind a leading 1 (fast to parse) *)
+Fixpoint B_fuel (fuel : nat) (n : N) (acc : bytes) : bytes :=
+  match fuel with
+  | O => acc
+  | S f => if n <=? 1 then acc else B_fuel f (n / 256) (n mod 256 :: acc)
+  end.
+Definition B (n : N) : bytes := B_fuel (N.to_nat (N.size n)) n [].
+
 Record reply := mkReply {
   p_id : N; p_qr : bool; p_question : list (bytes * N * N); p_rcode : N; p_aa : bool; p_tc : bool;
   p_an : list rr; p_ns : list rr; p_ex : list rr;
